@@ -46,10 +46,31 @@ def run(chk):
         chk.violation({"name": name, "k": e["k"]},
                       "lookup of %s disagrees with the PSL algorithm over the shipped list / structural clauses: %s" % (name, json.dumps(e)[:300]),
                       {"kind": "psl", "event": e})
+    if thorough:
+        # exhaustive: every label of the list under every parent of the list (5.8 M names), in 24 parts
+        parts = 24
+        cross_names = 0
+        for k in range(parts):
+            ctrace = os.path.join(w, "cross.ndjson")
+            cs = vlib.harness(["psl", "cross", "--out", ctrace, "--part", k, "--of", parts], timeout=3600)
+            cres = batch(chk, ctrace, rules, "cross %d/%d" % (k, parts))
+            if cres["events"] != cs["events"]:
+                raise vlib.ToolError("cross walk: event count mismatch %s vs %s" % (cs, cres["events"]))
+            cross_names += cs["names"]
+            if cres["viol"]:
+                cev = vlib.read_ndjson(ctrace)
+                for i in cres["viol"][:3]:
+                    e = cev[i - 1]
+                    chk.violation({"name": ".".join(e["d"]), "k": "cross"},
+                                  "lookup of %s disagrees with the PSL algorithm over the shipped list: %s" % (".".join(e["d"]), json.dumps(e)[:300]),
+                                  {"kind": "psl", "event": e})
+            os.remove(ctrace)
+        chk.cov["cross_walk"] = {"parents": cs["parents"], "labels": cs["labels"], "names": cross_names}
+        chk.cov["exhaustive_cross_walk"] = True
     if res["drift"]:
         chk.note("model-drift: %d lookups return an error kind other than the coded one (first: %s)" % (
             len(res["drift"]), json.dumps(events[res["drift"][0] - 1])[:200]))
-    chk.cov["evaluations"] = res["events"]
+    chk.cov["evaluations"] = res["events"] + (chk.cov.get("cross_walk", {}).get("names", 0))
     chk.cov["distinct_nontrivial"] = len(names)
     chk.cov["rules"] = {"normal": res["normal"], "wildcard": res["wild"], "exception": res["exc"]}
     chk.cov["canonical_names"] = s["canonical"]
